@@ -10,12 +10,28 @@ Command loops of `drv_c04` (one operation per input line, one canonical output l
   path     `<type> | <step> <step> …`              → `addr=<n> spec=<n>` | `error <e> spec=none` …
              type:  S<size> | P(<type>) | A<len>(<type>) | V<len>(<type>) | G<size>{<name>@<off>:<type>;…}  (`_` = anonymous)
              step:  .name | >name | [i]            the object is at address 1000000, every stored pointer is 2000000
+  pathb    `<type> | <steps> | <addr>=<ptr> …`     → `addr=<n> size=<n> ok=<0|1> encl=<base>:<size> in=<0|1> sum=<n|none>`
+             (the object is at 1000000; the pointer stored at <addr> is <ptr>, every other stored pointer is 0):
+             designated address and size, `pathOk`, the enclosing object, containment, Σ `offsetTerms` if pointer-free
+  boolseq  `<small 0|1>`                           → the lines of `cast(from, _Bool); store(_Bool)`
+  x86bf    `<type> <w> <o> <buf hex, 24 bytes> <v hex>`
+                                                   → `assign=<hex> load=<hex> buf=<hex> rsp=<delta>`: `X86.run` of the assign sequence
+             (unit at byte 8 of the buffer, its address on the stack) followed by the load sequence, or `fault`
+  x86bool  `<small 0|1> <buf hex, 24 bytes> <v hex>` → `rax=<hex> buf=<hex> rsp=<delta>` for cast-to-_Bool + store at byte 8
+  structseq `<size>`                               → the lines of `store` for a struct / union of that size
+  pushseq  `<size>`                                → the lines of `push_struct`;   retseq `<off> <size>` → those of `copy_struct_mem`
+  x86push  `<size> <dstoff> <srcoff> <buf hex>`    → `buf=<hex> rax=<srcoff> rsp=<new rsp - dst>`: push_struct with the copy landing at dstoff
+  x86ret   `<size> <dstoff> <srcoff> <buf hex>`    → `buf=<hex> rax=<dstoff>`: copy_struct_mem with the hidden pointer at -8(%rbp)
+  bfstmt   `<d> <k> <c> <type> <w> <o>`            → the lines of `local.member = c` (gen_addr, push, constant, bit-field arm)
+  x86copy  `<size> <dstoff> <srcoff> <buf hex>`    → `buf=<hex>`: `X86.run` of the struct-store loop inside one buffer
 -/
 import ChibiVerif.Model.BitField
 import ChibiVerif.Spec.C04Spec
 import ChibiVerif.Model.Frame
 import ChibiVerif.Model.Alloca
 import ChibiVerif.Model.Lval
+import ChibiVerif.Model.LvalBounds
+import ChibiVerif.Model.X86
 
 namespace ChibiVerif.Driver.C04
 open ChibiVerif.Asm ChibiVerif.BitField
@@ -185,6 +201,169 @@ def pathLine (line : String) : String :=
     | _, _ => "bad-op"
   | _ => "bad-op"
 
+/-! bounds of paths -/
+def parseEnvPairs (s : String) : Option (List (Int × Int)) :=
+  (words s).mapM fun w =>
+    match w.splitOn "=" with
+    | [a, b] => (do let a ← parseInt a; let b ← parseInt b; pure (a, b))
+    | _ => none
+
+def pathbLine (line : String) : String :=
+  match line.splitOn "|" with
+  | [t, p, e] =>
+    match parseTy t.trimAscii.toString.toList, (words p).mapM parseStep, parseEnvPairs e with
+    | some (ty, []), some steps, some pairs =>
+      let env : Lval.Env := ⟨fun a => match pairs.find? (fun q => q.1 == a) with | some q => q.2 | none => 0⟩
+      let a0 : Int := 1000000
+      let root : Lval.Node := .var a0 ty
+      match Lval.elabPath root steps, Lval.designate env a0 ty steps with
+      | .ok n, some (a', t') =>
+        match Lval.genAddr env n with
+        | .ok a =>
+          let ok := Lval.pathOk env a0 ty steps
+          let enc := Lval.enclosing env a0 ty.sizeof a0 ty steps
+          let inside := decide (enc.1 ≤ a') && decide (a' + (t'.sizeof : Int) ≤ enc.1 + (enc.2 : Int))
+          let sum := match Lval.offsetTerms ty steps with
+            | some (ks, _) => toString (a0 + ks.sum)
+            | none => "none"
+          s!"addr={a} spec={a'} size={t'.sizeof} ok={if ok then 1 else 0} encl={enc.1}:{enc.2} in={if inside then 1 else 0} sum={sum} fits={if ty.fits then 1 else 0} wf={if ty.allWf then 1 else 0}"
+        | .error e => s!"error {showFail e}"
+      | .error e, _ => s!"error {showFail e}"
+      | .ok _, none => "error spec-none"
+    | _, _, _ => "bad-op"
+  | _ => "bad-op"
+
+/-! `_Bool` stores and the machine runs -/
+def boolseqLine (ws : List String) : String :=
+  match ws with
+  | [sm] => " | ".intercalate ((Gen.C04.boolCastLines (sm == "1") ++ Gen.C04.storeIntLines (BfType.bool).implSize).map lineText)
+  | _ => "bad-op"
+
+def structseqLine (ws : List String) : String :=
+  match ws with
+  | [sz] => match sz.toNat? with
+    | some n => " | ".intercalate ((Gen.C04.storeStructLines n).map lineText)
+    | none => "bad-op"
+  | _ => "bad-op"
+
+def insOf (ls : List Line) : List Ins := ls.flatMap Line.instrs
+
+def hexBytes (s : String) : Option (List Nat) :=
+  let rec go : List Char → Option (List Nat)
+    | [] => some []
+    | a :: b :: r => do
+      let x ← hexDigit a; let y ← hexDigit b; let t ← go r
+      pure ((x * 16 + y) :: t)
+    | _ => none
+  go s.toList
+
+def hex2 (n : Nat) : String := String.ofList ((Nat.toDigits 16 (n / 16 % 16)) ++ (Nat.toDigits 16 (n % 16)))
+
+def BUF : Nat := 0x100000
+def STK : Nat := 0x800000
+
+/-- machine state: a buffer at `BUF`, an 8-byte stack slot at `STK` holding `top`, %rsp = STK, %rax = v, %rdi = rdi -/
+def mkState (buf : List Nat) (top v rdi : Nat) : X86.State :=
+  { regs := fun r => if r = .rax then BitVec.ofNat 64 v else if r = .rsp then BitVec.ofNat 64 STK
+                     else if r = .rdi then BitVec.ofNat 64 rdi else 0
+    mem := fun a =>
+      let n := a.toNat
+      if BUF ≤ n ∧ n < BUF + buf.length then BitVec.ofNat 8 (buf.getD (n - BUF) 0)
+      else if STK ≤ n ∧ n < STK + 8 then BitVec.ofNat 8 (top / 256 ^ (n - STK) % 256)
+      else 0 }
+
+def dumpBuf (s : X86.State) (len : Nat) : String :=
+  String.join ((List.range len).map fun i => hex2 (s.mem (BitVec.ofNat 64 (BUF + i))).toNat)
+
+def x86bfLine (ws : List String) : String :=
+  match ws with
+  | [t, w, o, buf, v] =>
+    match bfTypeOf t, w.toNat?, o.toNat?, hexBytes buf, parseHex v with
+    | some t, some w, some o, some buf, some v =>
+      let s0 := mkState buf (BUF + 8) v 0
+      match X86.run (insOf (assignSeq t w o)) s0 with
+      | none => "fault"
+      | some s1 =>
+        let s2 := s1.set .rax (BitVec.ofNat 64 (BUF + 8))
+        match X86.run (insOf (loadSeq t w o)) s2 with
+        | none => "fault"
+        | some s3 =>
+          s!"assign={toHex (s1.get .rax).toNat} load={toHex (s3.get .rax).toNat} buf={dumpBuf s3 buf.length} rsp={(s1.get .rsp).toNat - STK}"
+    | _, _, _, _, _ => "bad-op"
+  | _ => "bad-op"
+
+def x86boolLine (ws : List String) : String :=
+  match ws with
+  | [sm, buf, v] =>
+    match hexBytes buf, parseHex v with
+    | some buf, some v =>
+      let s0 := mkState buf (BUF + 8) v 0
+      match X86.run (insOf (Gen.C04.boolCastLines (sm == "1") ++ Gen.C04.storeIntLines (BfType.bool).implSize)) s0 with
+      | none => "fault"
+      | some s1 => s!"rax={toHex (s1.get .rax).toNat} buf={dumpBuf s1 buf.length} rsp={(s1.get .rsp).toNat - STK}"
+    | _, _ => "bad-op"
+  | _ => "bad-op"
+
+def x86copyLine (ws : List String) : String :=
+  match ws with
+  | [sz, d, sr, buf] =>
+    match sz.toNat?, d.toNat?, sr.toNat?, hexBytes buf with
+    | some sz, some d, some sr, some buf =>
+      let s0 := mkState buf (BUF + d) (BUF + sr) 0
+      match X86.run (insOf (Gen.C04.storeStructLines sz)) s0 with
+      | none => "fault"
+      | some s1 => s!"buf={dumpBuf s1 buf.length} rax={(s1.get .rax).toNat - BUF} rsp={(s1.get .rsp).toNat - STK}"
+    | _, _, _, _ => "bad-op"
+  | _ => "bad-op"
+
+def bfstmtLine (ws : List String) : String :=
+  match ws with
+  | [d, k, c, t, w, o] =>
+    match parseInt d, parseInt k, parseInt c, bfTypeOf t, w.toNat?, o.toNat? with
+    | some d, some k, some c, some t, some w, some o =>
+      " | ".intercalate ((assignLocalSeq d k c t w o).map lineText)
+    | _, _, _, _, _, _ => "bad-op"
+  | _ => "bad-op"
+
+def pushseqLine (ws : List String) : String :=
+  match ws with
+  | [sz] => match sz.toNat? with
+    | some n => " | ".intercalate ((Gen.C04.pushStructLines n).map lineText)
+    | none => "bad-op"
+  | _ => "bad-op"
+
+def retseqLine (ws : List String) : String :=
+  match ws with
+  | [off, sz] => match parseInt off, sz.toNat? with
+    | some o, some n => " | ".intercalate ((Gen.C04.copyStructMemLines o n).map lineText)
+    | _, _ => "bad-op"
+  | _ => "bad-op"
+
+def x86pushLine (ws : List String) : String :=
+  match ws with
+  | [sz, d, sr, buf] =>
+    match sz.toNat?, d.toNat?, sr.toNat?, hexBytes buf with
+    | some sz, some d, some sr, some buf =>
+      let n8 := (Gen.Declspec.alignTo (sz : Int) 8).toNat
+      let s0 := (mkState buf 0 (BUF + sr) 0).set .rsp (BitVec.ofNat 64 (BUF + d + n8))
+      match X86.run (insOf (Gen.C04.pushStructLines sz)) s0 with
+      | none => "fault"
+      | some s1 => s!"buf={dumpBuf s1 buf.length} rax={(s1.get .rax).toNat - BUF} rsp={((s1.get .rsp).toNat : Int) - ((BUF + d + n8 : Nat) : Int)}"
+    | _, _, _, _ => "bad-op"
+  | _ => "bad-op"
+
+def x86retLine (ws : List String) : String :=
+  match ws with
+  | [sz, d, sr, buf] =>
+    match sz.toNat?, d.toNat?, sr.toNat?, hexBytes buf with
+    | some sz, some d, some sr, some buf =>
+      let s0 := (mkState buf (BUF + d) (BUF + sr) 0).set .rbp (BitVec.ofNat 64 (STK + 8))
+      match X86.run (insOf (Gen.C04.copyStructMemLines (-8) sz)) s0 with
+      | none => "fault"
+      | some s1 => s!"buf={dumpBuf s1 buf.length} rax={(s1.get .rax).toNat - BUF}"
+    | _, _, _, _ => "bad-op"
+  | _ => "bad-op"
+
 partial def loop (h : IO.FS.Stream) (f : String → String) : IO UInt32 := do
   let line ← h.getLine
   if line.isEmpty then return 0
@@ -201,6 +380,17 @@ def run (sub : String) : IO UInt32 := do
   | "frame" => loop h frameLine
   | "alloca" => loop h (fun l => allocaLine (words l))
   | "path" => loop h pathLine
-  | _ => IO.eprintln "usage: drv_c04 bfseq|bfmodel|frame|alloca|path"; return 2
+  | "pathb" => loop h pathbLine
+  | "boolseq" => loop h (fun l => boolseqLine (words l))
+  | "structseq" => loop h (fun l => structseqLine (words l))
+  | "x86bf" => loop h (fun l => x86bfLine (words l))
+  | "x86bool" => loop h (fun l => x86boolLine (words l))
+  | "x86copy" => loop h (fun l => x86copyLine (words l))
+  | "pushseq" => loop h (fun l => pushseqLine (words l))
+  | "bfstmt" => loop h (fun l => bfstmtLine (words l))
+  | "retseq" => loop h (fun l => retseqLine (words l))
+  | "x86push" => loop h (fun l => x86pushLine (words l))
+  | "x86ret" => loop h (fun l => x86retLine (words l))
+  | _ => IO.eprintln "usage: drv_c04 bfseq|bfmodel|frame|alloca|path|pathb|boolseq|structseq|pushseq|retseq|bfstmt|x86bf|x86bool|x86copy|x86push|x86ret"; return 2
 
 end ChibiVerif.Driver.C04
